@@ -89,11 +89,14 @@ def plan(tier, seed):
     out = []
     for name, pairs, menu, costs, rooted in slices(tier):
         out.extend(L.split_plan(name, pairs, menu, 150, {"costs": costs, "rooted": rooted}))
-    # SIX families, loosely constrained: the leaves ab, cd, e, f in every arrangement on the two 4-leaf combs (one species):
-    # 180 compatible root orders per input, few of them optimal
-    out.extend(L.split_plan("O4combx1x{ab,cd,e,f}/180 root orders", [(sh, None) for sh in spaces.chain_shapes(4)[::3]],
-                            [("a", "b"), ("c", "d"), ("e",), ("f",)], 4,
-                            {"costs": [(0, 1, 1, 1, 1)], "rooted": False, "all_families": 6}))
+    # SIX families, loosely constrained: the leaves ab, cd, e, af in every arrangement on the two 4-leaf combs (one species):
+    # 120 compatible root orders per input, two of them optimal (thorough: two more such menus)
+    menus = [[("c",), ("b", "d"), ("a", "f"), ("b", "e")]]
+    if tier != "quick":
+        menus += [[("a", "b"), ("d", "e"), ("d", "f"), ("c",)], [("a", "b"), ("c", "d"), ("e",), ("a", "f")]]
+    for menu in menus:
+        out.extend(L.split_plan("O4combx1x6 families/120 root orders", [(sh, None) for sh in spaces.chain_shapes(4)[::3]], menu, 4,
+                                {"costs": [(0, 1, 1, 1, 1)], "rooted": False, "all_families": 6}))
     # operation histories: one input object per shape pair (ancestors named / unnamed), its leaf assignment, syntenies and
     # costs updated in place from one case to the next; every call is checked against the oracle of the current state
     core = [c for c in spaces.CV_CORE if spaces.coherent(c)]
